@@ -314,7 +314,14 @@ def isil_format(rep, reg):
                 env0[st.targets[0].id] = ev(st.value, dict(env0))
             except (Undecidable, Unsupported):
                 pass
-    hooks = {'compact': lambda x: x, '_is_known_agency': lambda a: True}
+    # the registry lookup itself (the private function that asks numdb for 'isil', whatever its name) stands for "known"
+    hooks = {'compact': lambda x: x}
+    for n_ in tree.body:
+        if isinstance(n_, ast.FunctionDef) and any(isinstance(c, ast.Call) and src(c.func).endswith('numdb.get') and c.args
+                                                   and isinstance(c.args[0], ast.Constant) and c.args[0].value == 'isil' for c in ast.walk(n_)):
+            hooks[n_.name] = lambda *a: True
+    if len(hooks) < 2:
+        raise AnalysisError("stdnum/isil.py: no function looks the agency up in numdb.get('isil')")
     n = 0
     for e in reg.entries:
         if e.depth != 0 or e.low != e.high or not e.props:
